@@ -199,11 +199,20 @@ def run_campaign(run, name, budget, seed, focus_prop, exhaustive_tour=False, mc=
         if fresh:
             gens.append(tours.tours(init, adj, rng, max_len=8,
                                     select=lambda s_, d_, lab: s_ in fresh and lab.startswith(("Ok(", "SetOk("))))
+        # ... and every refused duplicate as the first call, on initial files in which the writable types
+        # are present in a format the library cannot decode (the duplicate check must not need the block)
+        undec_from = len(gens)
+        if fresh:
+            gens.append(tours.tours(init, adj, rng, max_len=8,
+                                    select=lambda s_, d_, lab: s_ in fresh and '"duplicate"' in lab and '"add"' in lab))
     k = 0
-    for g in gens:
+    for gi, g in enumerate(gens):
         for labs in g:
             k += 1
-            tr = execute_tour(name, labs, seed * 100003 + k, workdir, descs)
+            cs = seed * 100003 + k
+            if not exhaustive_tour and fresh and gi == undec_from:
+                cs = cs - cs % 6 + 4       # the concretisation with undecodable formats (plan.Concretizer)
+            tr = execute_tour(name, labs, cs, workdir, descs)
             traces.append(tr)
             steps += len(tr["steps"])
     res, verdicts = validate(traces)
